@@ -8,7 +8,7 @@
 //! Oracle on the implementation:
 //!   1. the definition is accepted; take the signature numbat prints for it (pretty-printed definition up to ` = `);
 //!   2. the same body re-declared with that signature in a clone of the session is accepted;
-//!   3. >= 20 generated call sites with concrete dimensions (about two thirds built to fit the analysed type,
+//!   3. >= 20 generated call sites with concrete dimensions (about half built to fit the analysed type,
 //!      the rest with one perturbed argument) are accepted by the inferred version iff by the annotated one, with
 //!      the same result type;
 //!   4. (statistics only) the independent analysis of c02_parts/oracle.rs agrees on the principal type.
@@ -452,7 +452,23 @@ fn gen_case(rng: &mut Rng, w0: &World, session: &str, n_calls: usize) -> Option<
     for _ in 0..n_calls {
         let inst: Vec<V> = (0..sch.nq).map(|_| g.rand_dim()).collect();
         let mut args = Vec::new();
-        let perturb = if g.rng.chance(1, 3) { Some(g.rng.below(ps.len().max(1))) } else { None };
+        // perturb an argument whose parameter type is constrained (shares a variable with another parameter or has
+        // a fixed part), so that the perturbed call is usually ill-dimensioned
+        let constrained: Vec<usize> = (0..ps.len())
+            .filter(|i| match &ps[*i] {
+                Ty::D(pv) => {
+                    let shared = pv.0.keys().any(|a| matches!(a, Atom::Q(_)) && ps.iter().enumerate().any(|(j, q)| j != *i && matches!(q, Ty::D(qv) if !qv.get(a).is_zero())));
+                    let rigid = pv.0.keys().any(|a| matches!(a, Atom::Base(_)));
+                    shared || rigid || pv.is_zero()
+                }
+                _ => false,
+            })
+            .collect();
+        let perturb = if g.rng.chance(1, 2) {
+            if !constrained.is_empty() { Some(*g.rng.pick(&constrained)) } else { Some(g.rng.below(ps.len().max(1))) }
+        } else {
+            None
+        };
         for (i, p) in ps.iter().enumerate() {
             let Ty::D(pv) = p else { return None };
             let mut v = pv.subst(&|a: &Atom| if let Atom::Q(j) = a { Some(inst[*j].clone()) } else { None });
